@@ -13,6 +13,7 @@ inductive Op
   | tlisten (h s : Nat) (ip : Ip) (port : Nat)
   | uconnect (h s : Nat) (ip : Ip) (port : Nat)
   | tconnect (h s : Nat) (ip : Ip) (port : Nat)
+  | tconnectcancel (h : Nat) (ip : Ip) (port : Nat)
   | accept (h s ns : Nat)
   | close (h s : Nat)
   | usend (h s : Nat) (ip : Ip) (port tag : Nat)
@@ -108,6 +109,21 @@ def inject (w : World) (p : Pkt) : World × String :=
   let (f, out) := f.egressAll
   ({ w with fab := f }, "reply=" ++ wireTok out)
 
+/-- Finding F-C17-1 pattern: `bind(ip, port)` on host kernel `k` conflicts, and every
+    conflicting binding is held only by aborted, never-accepted children (closed TCB, not
+    closed by an application, not reachable from any application handle in `owned`). -/
+def zombieOnlyConflict (k : Kernel) (owned : List Fd) (ip : Ip) (port : Nat) (tcp : Bool) : Bool :=
+  let key : BindKey := ⟨ip.v6, tcp, ip, port⟩
+  let confl := k.tbl.bindings.filter fun (e, _) =>
+    e.v6 == key.v6 && e.tcp == key.tcp && e.port == key.port &&
+      (e.addr == key.addr || e.addr.isUnspec || key.addr.isUnspec)
+  !confl.isEmpty && confl.all fun (_, fds) => fds.all fun fd =>
+    !owned.contains fd &&
+      (match k.tbl.get fd with
+       | some s => !s.fdClosed && s.listen.isNone &&
+           (match s.tcb with | some tc => tc.state == .closed && (tc.reset || tc.timedOut) | none => false)
+       | none => false)
+
 def cycleLoop : Nat → Kernel → Ip → Nat → Nat → Kernel × Nat × Nat
   | 0, k, _, last, fails => (k, last, fails)
   | n + 1, k, ip, last, fails =>
@@ -195,6 +211,21 @@ def step (w : World) : Op → World × String × List String
       | .pending =>
         let (w, w2) := (w.setK h (k.close fd)).pump
         (w, "pending wire=" ++ wireTok (w1 ++ w2), ["connectpending"])
+  | .tconnectcancel h ip port =>
+    if h ≥ w.fab.hosts.length then (w, "nohost", []) else
+    let k := w.fab.kernel h
+    match k.tcpConnectStart ⟨ip, port⟩ with
+    | .error (e, k') =>
+      let (w, seen) := (w.setK h k').pump
+      (w, "err " ++ errTok e ++ " wire=" ++ wireTok seen, ["connectfail"])
+    | .ok (k', fd) =>
+      -- one round over the wire, then the connect future is dropped
+      let w := w.setK h k'
+      let (f, out) := w.fab.egressAll
+      let f := out.foldl (fun f p => f.deliver p) f
+      let w := { w with fab := f }
+      let (w, w2) := (w.setK h ((w.fab.kernel h).close fd)).pump
+      (w, "cancelled wire=" ++ wireTok (out ++ w2), ["connectcancel"])
   | .accept h s ns =>
     match w.slot s with
     | some sl =>
